@@ -95,6 +95,31 @@ def rangesDec : Nat → Nat → Bytes → Option (Ranges × Bytes)
     let (rest, bs) ← rangesDec n end' bs
     some ((start, end') :: rest, bs)
 
+/-- mirrors: common/src/vint.rs::serialize_vint_u128 (same byte format as VInt; 19 bytes hold 128 bits) -/
+def vint128Enc (n : Nat) : Bytes := vintEncAux 18 n
+
+/-- mirrors: CompactSpace::serialize — range bounds delta-coded against the previous bound -/
+def rangesEnc : Nat → Ranges → Bytes
+  | _, [] => []
+  | prev, r :: rs => vint128Enc (r.1 - prev) ++ vint128Enc (r.2 - r.1) ++ rangesEnc r.2 rs
+
+/-- mirrors: IPCodecParams::serialize — u64 flags (0), VIntU128 min, max, num_vals, u8 num_bits, the
+compact space -/
+def ipFooter (mn mx nv nb : Nat) (rs : Ranges) : Bytes :=
+  leBytes 8 0 ++ vint128Enc mn ++ vint128Enc mx ++ vint128Enc nv ++ [nb] ++ vintEnc rs.length ++ rangesEnc 0 rs
+
+/-- the codec for a given compact space: values → compact values, bit-packed with
+`compute_num_bits(amplitude)` (mirrors: CompactSpaceCompressor::compress_into, payload only) -/
+def compactPayload (rs : Ranges) (vals : List Nat) : Bytes :=
+  pack (computeNumBits (amplitude rs)) (vals.map (fun v => (toCompact rs v).getD 0))
+
+/-- mirrors: u128_based/mod.rs::serialize_column_values_u128 for a given compact space: header
+(VInt num_vals, codec 1), bit-packed compact values, footer, footer length as u32 LE -/
+def ipColumnEnc (rs : Ranges) (vals : List Nat) : Bytes :=
+  let footer := ipFooter (vals.foldl Nat.min (vals.headD 0)) (vals.foldl Nat.max (vals.headD 0)) vals.length
+    (computeNumBits (amplitude rs)) rs
+  vintEnc vals.length ++ [1] ++ (compactPayload rs vals ++ footer ++ leBytes 4 footer.length)
+
 structure IpColumn where
   numVals : Nat
   minValue : Nat
@@ -131,10 +156,5 @@ def openU128Column (bytes : Bytes) : Option IpColumn := do
 
 /-- mirrors: CompactSpaceDecompressor::get -/
 def IpColumn.get (c : IpColumn) (i : Nat) : Nat := fromCompact c.ranges (unpackGet c.numBits i c.data)
-
-/-- the codec for a given compact space: values → compact values, bit-packed with
-`compute_num_bits(amplitude)` (mirrors: CompactSpaceCompressor::compress_into, payload only) -/
-def compactPayload (rs : Ranges) (vals : List Nat) : Bytes :=
-  pack (computeNumBits (amplitude rs)) (vals.map (fun v => (toCompact rs v).getD 0))
 
 end TantivyModel.Columnar
